@@ -94,6 +94,46 @@ let () =
             | "C" -> OpCopyFiles (next_files ())
             | s -> failwith ("op " ^ s)) in
           Stdlib.List.iteri (fun i st' -> Printf.printf "%s op%d %s\n" id i (show_store st')) (run_ops hs st ops)
+        | "cons" ->
+          (* <id> <command> <version index: - | n | i> <store> <checkpoint bits per store entry> <setup 0|1> *)
+          let cmd = next () in
+          let vt = next () in
+          let st = next_files () in
+          let bits = next () in
+          let setup = next_int () = 1 in
+          let cks = Stdlib.List.filteri (fun i _ -> bits <> "-" && bits.[i] = '1') st |> Stdlib.List.map snd in
+          let is_checkpoint c = Stdlib.List.mem c cks in
+          let idx = match vt with "-" -> None | "n" -> Some None | i -> Some (Some (nat_of_int (int_of_string i))) in
+          let setup_ok _ () = setup in
+          let rest _ _ () = () in
+          let k _ () = () in
+          let show = function
+            | Refused v -> "refused v=" ^ show_v v
+            | NotFoundVersion -> "notfound v=" ^ show_v (validate_store hs st)
+            | Failed -> "failed v=" ^ show_v (validate_store hs st)
+            | Proceeded () -> "proceeds v=" ^ show_v (validate_store hs st) in
+          let command c = show (run hs is_checkpoint setup_ok rest c st ()) in
+          let o = match cmd with
+            | "hash" ->
+              let st' = migrate_hash hs st in
+              Printf.sprintf "repaired v=%s sum=%s" (show_v (validate_store hs st'))
+                (match store_get st' s_atlas_sum with None -> "-" | Some b -> hexb b)
+            | "apply" -> command CApply
+            | "status" -> command CStatus
+            | "set" -> command CSet
+            | "new" -> command CNew
+            | "diff" -> command CDiff
+            | "validate" -> command (CValidate false)
+            | "validate-dev" -> command (CValidate true)
+            | "lint" -> command CLint
+            | "import" -> command CImportFrom
+            | "statesql" -> command (CStateSQL idx)
+            | "pending" -> show (executor_pending hs k st ())
+            | "execn" -> show (execute_n hs k st ())
+            | "execto" -> show (execute_to hs is_checkpoint k (match idx with Some i -> i | None -> None) st ())
+            | "replay" -> show (replay hs is_checkpoint (fun () -> true) k idx st ())
+            | c -> failwith ("command " ^ c) in
+          Printf.printf "%s out=%s\n" id o
         | m -> failwith ("mode " ^ m)
       end
     done
